@@ -46,6 +46,15 @@ CONFIGS = {
         'force_spin_sync': True, 'type': 'layered',
         'tides': {'model': 'layered', 'eccentricity_truncation_lvl': 2, 'max_tidal_order_l': 2, 'obliquity_tides_on': True},
         'layers': {'Core': {'is_tidal': False}, 'Mantle': {'is_tidal': True}}}),
+    # dual-body: Jupiter-like host with CPL tides raised by the target (host_tide_raiser), layered spin-locked Io-like target
+    'dual-io': dict(base='io_simple', kind='layered', host='jupiter', host_config={
+        'tides_on': True, 'force_spin_sync': False,
+        'tides': {'model': 'global_approx', 'fixed_q': 8000., 'static_k2': 0.38, 'use_ctl': False,
+                  'eccentricity_truncation_lvl': 2, 'max_tidal_order_l': 2, 'obliquity_tides_on': True}},
+        new_config={
+        'force_spin_sync': True, 'type': 'layered',
+        'tides': {'model': 'layered', 'eccentricity_truncation_lvl': 2, 'max_tidal_order_l': 2, 'obliquity_tides_on': True},
+        'layers': {'Core': {'is_tidal': False}, 'Mantle': {'is_tidal': True}}}),
     'lay-earth': dict(base='earth_simple', kind='layered', new_config={
         'force_spin_sync': False,
         'tides': {'model': 'layered', 'eccentricity_truncation_lvl': 2, 'max_tidal_order_l': 2, 'obliquity_tides_on': True}}),
@@ -101,6 +110,21 @@ def _ops(cfgname):
     add('B:P30+s8d:w', lambda w, o: w.set_state(orbital_period=30., spin_period=8.), orb=('P', 30.), spin=('P', 8.), _spin_before_orb=True)
     add('B:e.25+ob.2+s12d:w', lambda w, o: w.set_state(eccentricity=0.25, obliquity=0.2, spin_period=12.), e=0.25, ob=0.2, spin=('P', 12.))
     add('B:e.05+P15:o', lambda w, o: o.set_state(w, eccentricity=0.05, orbital_period=15.), e=0.05, orb=('P', 15.))
+    if 'host' in CONFIGS[cfgname]:
+        # dual-body: the orbit is that of a moon (periods of days, a ~ 4e8..1e9 m around a Jupiter-mass host)
+        for k in [k for k in ops if k.startswith(('a3e10', 'a5e10', 'n2e-6', 'n7e-6'))]:
+            del ops[k]
+        add('a4e8:w.set_state', lambda w, o: w.set_state(semi_major_axis=4.2e8), orb=('a', 4.2e8))
+        add('a9e8:o.setter', lambda w, o: o.set_semi_major_axis(w, 9e8), orb=('a', 9e8))
+        add('n4e-5:w.prop', lambda w, o: setattr(w, 'orbital_frequency', 4e-5), orb=('n', 4e-5))
+        add('n2e-5:o.set_state', lambda w, o: o.set_state(w, orbital_frequency=2e-5), orb=('n', 2e-5))
+        add('hs.4d:h.set_state', lambda w, o: o.tidal_host.set_state(spin_period=0.41), hspin=('P', 0.41))
+        add('hs.9d:h.prop', lambda w, o: setattr(o.tidal_host, 'spin_period', 0.9), hspin=('P', 0.9))
+        add('hs2e-4:h.setter', lambda w, o: o.tidal_host.set_spin_frequency(2e-4), hspin=('f', 2e-4))
+        add('hob.05:h.set_state', lambda w, o: o.tidal_host.set_state(obliquity=0.05), hob=0.05)
+        add('hob.2:h.prop', lambda w, o: setattr(o.tidal_host, 'obliquity', 0.2), hob=0.2)
+        add('hq5000:h.setter', lambda w, o: o.tidal_host.set_fixed_q(5000.), hq=5000.)
+        add('hq300:h.prop', lambda w, o: setattr(o.tidal_host, 'fixed_q', 300.), hq=300.)
     if kind == 'ga':
         if CONFIGS[cfgname]['new_config']['tides']['use_ctl']:
             add('dt50:w.setter', lambda w, o: w.set_fixed_dt(50.), dt=50.)
@@ -120,7 +144,8 @@ def _ops(cfgname):
 
 
 def _tidal_layer_names(cfgname):
-    return {'lay-io-free': ['Mantle'], 'lay-io-sync': ['Mantle'], 'lay-earth': ['Lower_Mantle', 'Upper_Mantle']}[cfgname]
+    return {'lay-io-free': ['Mantle'], 'lay-io-sync': ['Mantle'], 'dual-io': ['Mantle'],
+            'lay-earth': ['Lower_Mantle', 'Upper_Mantle']}[cfgname]
 
 
 def _layer(w, name):
@@ -158,9 +183,16 @@ def fresh(cfgname):
     if c['base'] not in _base:
         _base[c['base']] = build_world(c['base'])
     import copy
-    star = build_world('55cnc')                       # a fresh host for every replay (keeps a back-reference to its orbit)
     w = build_from_world(_base[c['base']], new_config=copy.deepcopy(c['new_config']))
-    o = PhysicsOrbit(star, tidal_host=star, tidal_bodies=w)
+    if 'host' in c:
+        if c['host'] not in _base:
+            _base[c['host']] = build_world(c['host'])
+        sun = build_world('sol')
+        star = build_from_world(_base[c['host']], new_config=copy.deepcopy(c['host_config']))   # the tidal host
+        o = PhysicsOrbit(sun, tidal_host=star, tidal_bodies=w, host_tide_raiser=w)
+    else:
+        star = build_world('55cnc')                   # a fresh host for every replay (keeps a back-reference to its orbit)
+        o = PhysicsOrbit(star, tidal_host=star, tidal_bodies=w)
     if c['kind'] == 'layered':
         # initial state of the layered systems: every tidal layer has a temperature (otherwise no viscosity, no tides)
         for ln in _tidal_layer_names(cfgname):
@@ -196,6 +228,15 @@ def place_directly(cfgname, s):
             _layer(w, k[2:]).set_state(temperature=v)
     if 'time' in s:
         o.time = s['time']
+    if 'hq' in s:
+        star.set_fixed_q(s['hq'])
+    hkw = {}
+    if 'hspin' in s:
+        hkw[{'P': 'spin_period', 'f': 'spin_frequency'}[s['hspin'][0]]] = s['hspin'][1]
+    if 'hob' in s:
+        hkw['obliquity'] = s['hob']
+    if hkw:
+        star.set_state(**hkw)
     kw = {}
     if 'orb' in s:
         kw[{'P': 'orbital_period', 'a': 'semi_major_axis', 'n': 'orbital_frequency'}[s['orb'][0]]] = s['orb'][1]
@@ -254,6 +295,12 @@ def observe(w, o):
     if hasattr(w, 'layers'):
         for L in w:
             ob['layer_heat:' + L.name] = _get(lambda: L.tidal_heating)
+    h = o.tidal_host
+    if getattr(h, 'tides', None) is not None:
+        ob.update(h_heat=_get(lambda: h.tidal_heating_global), h_dUdM=_get(lambda: h.dUdM), h_dUdw=_get(lambda: h.dUdw),
+                  h_dUdO=_get(lambda: h.dUdO), h_spin=_get(lambda: h.spin_frequency), h_obliquity=_get(lambda: h.obliquity),
+                  h_freqs=_get(lambda: _dict(h.unique_tidal_frequencies)), h_love=_get(lambda: _dict(h.global_love_by_orderl)),
+                  h_dsdt=_get(lambda: h.calc_spin_derivative()), h_n=_get(lambda: h.orbital_frequency), h_e=_get(lambda: h.eccentricity))
     return ob
 
 
@@ -317,6 +364,18 @@ def model_check(cfgname, s, star, w, ob):
                 out.append((k, ob[k], s['e']))
     if 'ob' in s and not _close(ob['obliquity'], s['ob'], 1e-15):
         out.append(('obliquity', ob['obliquity'], s['ob']))
+    if 'hspin' in s:
+        kind, v = s['hspin']
+        f = 2 * math.pi / (v * 86400.) if kind == 'P' else v
+        if not _close(ob.get('h_spin'), f, 1e-12):
+            out.append(('h_spin', ob.get('h_spin'), f))
+    if 'hob' in s and not _close(ob.get('h_obliquity'), s['hob'], 1e-15):
+        out.append(('h_obliquity', ob.get('h_obliquity'), s['hob']))
+    if 'host' in CONFIGS[cfgname]:
+        # the host experiences the tide raiser's orbit
+        for k_host, k_w in (('h_n', 'n'), ('h_e', 'e')):
+            if not _close(ob.get(k_host), ob.get(k_w), 1e-12):
+                out.append((k_host, ob.get(k_host), ob.get(k_w)))
     if 'spin' in s and s['spin'] != 'locked':
         kind, v = s['spin']
         f = 2 * math.pi / (np.asarray(_val(v)) * 86400.) if kind == 'P' else v
@@ -379,8 +438,29 @@ def functional(cfgname, star, w, o, ob):
                 negs[l] = negs.get(l, 0) + out[5][l]
         exp.update(heat=tot[0], dUdM=tot[1], dUdw=tot[2], dUdO=tot[3], love=_dict(loves), negimk=_dict(negs))
         exp['freqs'] = _dict(freqs)
+    host_active = False
+    if 'host' in c:
+        hs, hob_ = star.spin_frequency, star.obliquity
+        ht = c['host_config']['tides']
+        if hs is not None and (hob_ is not None or not ht['obliquity_tides_on']):
+            from TidalPy.toolbox.quick_tides import quick_tidal_dissipation
+            hres = quick_tidal_dissipation(
+                w.mass, star.radius, star.mass, star.gravity_surface, star.density_bulk, star.moi,
+                rheology='cpl', eccentricity=e, obliquity=(hob_ if ht['obliquity_tides_on'] else None),
+                orbital_frequency=n, spin_frequency=hs, max_tidal_order_l=ht['max_tidal_order_l'],
+                eccentricity_truncation_lvl=ht['eccentricity_truncation_lvl'], use_obliquity=ht['obliquity_tides_on'],
+                tidal_scale=star.tidal_scale, fixed_k2=star.tides.fixed_k2, fixed_q=star.tides.fixed_q)
+            # quick_tidal_dissipation derives a from (n, host_mass, target_mass) -- the same two masses, so the same a
+            exp.update(h_heat=hres['tidal_heating'], h_dUdM=hres['dUdM'], h_dUdw=hres['dUdw'], h_dUdO=hres['dUdO'],
+                       h_love=_dict(hres['love_number_by_orderl']))
+            exp['h_dsdt'] = spin_rate_derivative(hres['dUdO'], star.moi, w.mass)
+            host_active = True
     # orbital / spin derivatives from the functional dynamics module, fed with the expected potential derivatives
-    da, de = semia_eccen_derivatives(a, n, e, w.mass, exp['dUdM'], exp['dUdw'], star.mass)
+    if host_active:
+        from TidalPy.dynamics import semia_eccen_derivatives_dual
+        da, de = semia_eccen_derivatives_dual(a, n, e, star.mass, exp['h_dUdM'], exp['h_dUdw'], w.mass, exp['dUdM'], exp['dUdw'])
+    else:
+        da, de = semia_eccen_derivatives(a, n, e, w.mass, exp['dUdM'], exp['dUdw'], star.mass)
     exp['dadt'], exp['dedt'] = da, de
     exp['dndt'] = -(3. / 2.) * (n / a) * da
     exp['dsdt'] = spin_rate_derivative(exp['dUdO'], w.moi, star.mass)
@@ -480,13 +560,15 @@ def run(ctx):
     tot = dict(states=0, transitions=0, executions=0)
     depth_full, depth_canon = (2, 3) if not ctx.thorough else (3, 4)
     cfgs = [c for c in CONFIGS if c in os.environ.get('VERIF_C13_CONFIGS', ','.join(CONFIGS)).split(',')]
+    if not ctx.thorough and 'VERIF_C13_CONFIGS' not in os.environ:
+        cfgs = [c for c in cfgs if c not in ('cpl-free-noobl', 'lay-io-free')]     # quick: 6 of the 8 configurations
     per_cfg = {}
     samples = []
     warm()
     for c in cfgs:
         ops = op_names(c)
         r = histories.bfs(ctx, 'mc.props.C13:explore', c, ops, depth_full, depth_canon,
-                          max_frontier=(250 if not ctx.thorough else 2000))
+                          max_frontier=(150 if not ctx.thorough else 2000))
         per_cfg[c] = {k: v for k, v in r.items() if k != 'samples'}
         per_cfg[c]['alphabet'] = len(ops)
         for k in tot:
